@@ -407,6 +407,8 @@ pub struct LazyScenario {
     /// max_data_size of the relaying endpoints (small => chunked relay)
     pub relay_mds: usize,
     pub provider_dropped: bool,
+    /// (blobs) afterwards: clone the blob, consume one with into_inner(), then get() and into_inner() on the clone
+    pub clone_and_consume: bool,
 }
 
 #[derive(Default)]
@@ -552,6 +554,37 @@ impl Scenario for LazyScenario {
             for h in hs {
                 let _ = h.await;
             }
+            let mut cur = Some(cur);
+            if p.clone_and_consume {
+                if let Ok(LazyShip::Blob(b)) = Arc::try_unwrap(cur.take().unwrap()).map_err(|_| ()) {
+                    let o3 = o2.clone();
+                    let h = env.spawn("clone-and-consume", dest_tag, async move {
+                        let b2 = b.clone();
+                        let fmt = |r: Result<Vec<u8>, String>| match r {
+                            Ok(v) => format!("ok:{}:{}", v.len(), hex(&v)),
+                            Err(e) => format!("err:{e}").chars().take(50).collect(),
+                        };
+                        let r1 = tokio::time::timeout(Duration::from_secs(60), b.into_inner()).await;
+                        o3.lock().unwrap().fetched.push(match r1 {
+                            Err(_) => "hang".into(),
+                            Ok(r) => fmt(r.map(|d| d.into()).map_err(|e| format!("{e:?}"))),
+                        });
+                        let r2 = tokio::time::timeout(Duration::from_secs(60), b2.get()).await;
+                        o3.lock().unwrap().fetched.push(match r2 {
+                            Err(_) => "hang".into(),
+                            Ok(r) => fmt(r.map(|d| d.into()).map_err(|e| format!("{e:?}"))),
+                        });
+                        let r3 = tokio::time::timeout(Duration::from_secs(60), b2.into_inner()).await;
+                        o3.lock().unwrap().fetched.push(match r3 {
+                            Err(_) => "hang".into(),
+                            Ok(r) => fmt(r.map(|d| d.into()).map_err(|e| format!("{e:?}"))),
+                        });
+                    });
+                    if h.await.is_err() {
+                        o2.lock().unwrap().fetched.push("panic-in-clone-and-consume".into());
+                    }
+                }
+            }
             env.explore(false);
             drop(provider);
             drop(cur);
@@ -569,7 +602,9 @@ impl Scenario for LazyScenario {
                 v.fail("C20", "lazy-scenario-stuck", format!("{:?}: {:?}", out.ending, o.fetched));
             } else {
                 for f in &o.fetched {
-                    if f == "hang" {
+                    if f == "panic-in-clone-and-consume" {
+                        v.fail("C20", "clone-of-consumed-blob-panics", format!("{p:?}: {:?}", o.fetched.iter().map(|f| f.chars().take(30).collect::<String>()).collect::<Vec<_>>()));
+                    } else if f == "hang" {
                         v.fail("C20", "fetch-hangs", format!("{p:?}"));
                     } else if f.starts_with("ok") && *f != expect {
                         v.fail(
@@ -660,7 +695,7 @@ pub fn handle_grid(tier: Tier) -> Vec<Arc<dyn Scenario>> {
 }
 
 fn lz(kind: LazyKind, size: usize, hops: u8, double_fetch: bool, cut: Option<(u8, u32)>, relay_mds: usize, provider_dropped: bool) -> Arc<dyn Scenario> {
-    Arc::new(LazyScenario { kind, size, hops, double_fetch, cut, relay_mds, provider_dropped })
+    Arc::new(LazyScenario { kind, size, hops, double_fetch, cut, relay_mds, provider_dropped, clone_and_consume: false })
 }
 
 pub fn lazy_grid(tier: Tier) -> Vec<Arc<dyn Scenario>> {
@@ -672,6 +707,10 @@ pub fn lazy_grid(tier: Tier) -> Vec<Arc<dyn Scenario>> {
             for hops in 1..=3u8 {
                 for double in [false, true] {
                     out.push(lz(kind, size, hops, double, None, 8192, false));
+                    // a clone of the received blob survives the consumption of the other one
+                    if kind == LazyKind::Blob && hops <= 2 {
+                        out.push(Arc::new(LazyScenario { kind, size, hops, double_fetch: double, cut: None, relay_mds: 8192, provider_dropped: false, clone_and_consume: true }));
+                    }
                 }
                 // chunked relaying (relays with a small max_data_size)
                 if hops >= 2 && size > 64 {
